@@ -231,15 +231,16 @@ Section Algebra.
 
   Definition resolved (skip : atom -> expr K -> bool) (fs : list (expr K)) := forall f x, In f fs -> skip x f = false.
 
-  (* entry (i, j) of the assembled instantaneous matrix is D f_i y_j, for any number of state variables *)
-  Theorem mat_j0 skip st (fs : list (expr K)) : resolved skip fs -> length fs = length st ->
-    mat O (length st) (j0_entries O skip st fs) =
-    map (fun i => map (fun j => D O (nth i fs (Cst (o0 O))) (AV (nth j st 0))) (seq 0 (length st))) (seq 0 (length st)).
+  (* entry (i, j) of a matrix assembled from the dictionary of derivatives with respect to the variables `cs` (state variables:
+     J0 / DFDU; parameters: DFDP) is D f_i c_j, for any number of rows and columns *)
+  Theorem matr_j0 skip cs (fs : list (expr K)) : resolved skip fs ->
+    matr O (length fs) (length cs) (j0_entries O skip cs fs) =
+    map (fun i => map (fun j => D O (nth i fs (Cst (o0 O))) (AV (nth j cs 0))) (seq 0 (length cs))) (seq 0 (length fs)).
   Proof.
-    intros Hres Hlen. unfold mat. apply map_ext_in. intros i Hi. apply map_ext_in. intros j Hj.
-    apply in_seq in Hi, Hj. set (f := nth i fs (Cst (o0 O))). set (y := nth j st 0).
+    intros Hres. unfold matr. apply map_ext_in. intros i Hi. apply map_ext_in. intros j Hj.
+    apply in_seq in Hi, Hj. set (f := nth i fs (Cst (o0 O))). set (y := nth j cs 0).
     assert (Hf : nth_error fs i = Some f) by (apply nth_error_nth'; lia).
-    assert (Hy : nth_error st j = Some y) by (apply nth_error_nth'; lia).
+    assert (Hy : nth_error cs j = Some y) by (apply nth_error_nth'; lia).
     assert (Hr : skip (AV y) f = false) by (apply Hres; eapply nth_error_In; eassumption).
     destruct (occurs (AV y) f) eqn:Hocc.
     - rewrite (lookup_unique (i, j) _ (D O f (AV y))); [reflexivity| |].
@@ -250,6 +251,10 @@ Section Algebra.
       + intros e H. apply j0_entries_In in H as [f' [y' [Hf' [Hy' [C _]]]]].
         assert (f' = f) by congruence. assert (y' = y) by congruence. subst. rewrite Hocc in C. discriminate.
   Qed.
+  Theorem mat_j0 skip st (fs : list (expr K)) : resolved skip fs -> length fs = length st ->
+    mat O (length st) (j0_entries O skip st fs) =
+    map (fun i => map (fun j => D O (nth i fs (Cst (o0 O))) (AV (nth j st 0))) (seq 0 (length st))) (seq 0 (length st)).
+  Proof. intros Hres Hlen. unfold mat. pose proof (matr_j0 skip st fs Hres) as H. rewrite Hlen in H. exact H. Qed.
 
   Lemma hist_entries_In skip st (fs : list (expr K)) d i j e :
     In ((i, j), e) (hist_entries O true skip st fs d) <->
@@ -276,7 +281,7 @@ Section Algebra.
     mat O (length st) (hist_entries O true skip st fs d) =
     map (fun i => map (fun j => D O (nth i fs (Cst (o0 O))) (AP (nth j st 0) d)) (seq 0 (length st))) (seq 0 (length st)).
   Proof.
-    intros Hres Hlen Hnd. unfold mat. apply map_ext_in. intros i Hi. apply map_ext_in. intros j Hj.
+    intros Hres Hlen Hnd. unfold mat, matr. apply map_ext_in. intros i Hi. apply map_ext_in. intros j Hj.
     apply in_seq in Hi, Hj. set (f := nth i fs (Cst (o0 O))). set (y := nth j st 0).
     assert (Hf : nth_error fs i = Some f) by (apply nth_error_nth'; lia).
     assert (Hy : nth_error st j = Some y) by (apply nth_error_nth'; lia).
@@ -323,20 +328,44 @@ Section Algebra.
     apply Nat.eqb_eq in H2. unfold fexprs. rewrite map_length. auto.
   Qed.
 
-  (* Within the guard, the matrices that get_jacobian_func builds (expansion of intermediates, symbolic derivative, placement
-     through the entry dictionaries) are the partial derivatives of the vector field that get_run_func evaluates, with respect
-     to the state vector now (J0) and delayed by each distinct delay, in the state ordering. *)
-  Theorem jac_refines (s : sys K) r :
-    wf s = true -> no_delayed_factor_in_j0 O s = true -> jac_impl O s r = jac_spec O s r.
+  (* The matrices that get_jacobian_func builds (expansion of intermediates, symbolic derivative, placement through the entry
+     dictionaries) are the partial derivatives of the vector field that get_run_func evaluates, with respect to the state vector
+     now (J0) and delayed by each distinct delay, in the state ordering -- whenever the function does not stop with the NameError
+     of defect D08b: J0 printed with the table of past symbols (pastJ0 = true), or no delayed factor in an instantaneous entry. *)
+  Theorem jac_refines_gen pastJ0 (s : sys K) r :
+    wf s = true -> pastJ0 = true \/ no_delayed_factor_in_j0 O s = true ->
+    jac_impl_gen O true noskip pastJ0 s r = jac_spec O s r.
   Proof.
     intros Hwf Hg. destruct (wf_parts s Hwf) as [Hnd [Hlen _]].
     assert (Hres : resolved noskip (fexprs s)) by (intros f x Hin; reflexivity).
-    unfold jac_impl, jac_impl_gen, jac_sym, jac_spec.
-    unfold no_delayed_factor_in_j0 in Hg. apply negb_true_iff in Hg. rewrite Hg.
+    unfold jac_impl_gen, jac_sym, jac_spec.
+    assert (Hne : negb pastJ0 && name_error O noskip s = false).
+    { destruct Hg as [->|Hg]; [reflexivity|]. unfold no_delayed_factor_in_j0 in Hg. apply negb_true_iff in Hg. rewrite Hg. apply andb_false_r. }
+    rewrite Hne.
     rewrite mat_j0 by assumption. rewrite (eval_mat_spec s r AV). f_equal.
     rewrite map_map. apply map_ext. intro d. cbn [fst snd].
     rewrite mat_hist by assumption. now rewrite (eval_mat_spec s r (fun v => AP v d)).
   Qed.
+  Theorem jac_refines (s : sys K) r :
+    wf s = true -> no_delayed_factor_in_j0 O s = true -> jac_impl O s r = jac_spec O s r.
+  Proof. intros Hwf Hg. apply jac_refines_gen; auto. Qed.
+  (* with the repair of D08b in place (switch = true) the property holds without any guard *)
+  Theorem jac_refines_full : fixed_D08b = true -> forall (s : sys K) r, wf s = true -> jac_impl O s r = jac_spec O s r.
+  Proof. intros Hsw s r Hwf. apply jac_refines_gen; auto. Qed.
+
+  (* ---- parameter Jacobian (auto-07p DFDU / DFDP) *)
+  Theorem dfdp_placement params (s : sys K) :
+    dfdp_mat O params s =
+    map (fun i => map (fun k => D O (nth i (fexprs s) (Cst (o0 O))) (AV (nth k params 0))) (seq 0 (length params)))
+        (seq 0 (length (fexprs s))).
+  Proof. unfold dfdp_mat. apply matr_j0. intros f x Hin; reflexivity. Qed.
+  Theorem dfdp_refines cols (s : sys K) r : eval_mat O r (dfdp_mat O cols s) = spec_rect O s r cols.
+  Proof.
+    rewrite dfdp_placement. unfold eval_mat, spec_rect, fexprs. rewrite map_length, map_map.
+    apply map_ext. intro i. rewrite map_map. apply map_ext. intro j. fold (fexprs s). now rewrite partial_nth.
+  Qed.
+  Theorem dfdu_refines (s : sys K) r : eval_mat O r (dfdu_mat O s) = spec_rect O s r (states s).
+  Proof. exact (dfdp_refines (states s) s r). Qed.
 
   (* completeness of the list of history matrices: with respect to a delay that is not in the list every partial derivative is 0 *)
   Lemma delays_In fs d : In d (delays fs) <-> exists v, In (v, d) (@past_map K fs).
@@ -384,7 +413,7 @@ Definition w_delayed_env : atom -> Qc :=
   env [0; 1] [(0, mkq 1 2); (1, mkq 1 4); (2, mkq 1 2)] [(2, [mkq 1 2; mkq 3 4])].
 Lemma w_delayed_facts :
   wf w_delayed = true /\ no_delayed_factor_in_j0 QcO w_delayed = false /\
-  jac_impl QcO w_delayed w_delayed_env = NameErr /\
+  jac_impl_D08b_open QcO w_delayed w_delayed_env = NameErr /\
   jac_spec QcO w_delayed w_delayed_env =
     Ok [[mkq (-1) 1; mkq 1 1]; [mkq 3 4; mkq (-1) 1]] [(2, [[mkq 0 1; mkq 0 1]; [mkq 0 1; mkq 1 2]])].
 Proof. repeat split; vm_compute; reflexivity. Qed.
@@ -406,11 +435,16 @@ Proof.
   rewrite H3, H5. intro H. apply (f_equal (entry 0 0 (mkq 1 1))) in H. vm_compute in H. discriminate.
 Qed.
 
-Theorem full_statement_refuted_delayed : ~ C12_full_statement.
+(* the full statement is false of the code that prints J0 without the table of past symbols (switch = false) *)
+Theorem D08b_open_refuted : ~ (forall (s : sys Qc) (r : atom -> Qc), wf s = true -> jac_impl_D08b_open QcO s r = jac_spec QcO s r).
 Proof.
   intro H. specialize (H w_delayed w_delayed_env (proj1 w_delayed_facts)).
   destruct w_delayed_facts as [_ [_ [HI HS]]]. rewrite HI, HS in H. discriminate.
 Qed.
+Theorem full_statement_iff_switch : fixed_D08b = true -> C12_full_statement.
+Proof. intros Hsw s r Hwf. now apply (jac_refines_full Qc QcO QcO_ring Hsw). Qed.
+Theorem full_statement_refuted_while_open : fixed_D08b = false -> ~ C12_full_statement.
+Proof. intros Hsw H. apply D08b_open_refuted. intros s r Hwf. specialize (H s r Hwf). unfold jac_impl in H. now rewrite Hsw in H. Qed.
 (* the code before fix D08: x' = -x, z' = k * past(z, tau) (0 = x, 1 = z, 2 = k, 3 = tau): the entry d z'/d z(t - tau) = k was
    written to column 0 (position of z inside its delay group) instead of column 1 (position of z in the state vector) *)
 Definition w_d08 : sys Qc := mksys [0; 1] [Neg (V 0); Mul (V 2) (At (AP 1 3))] [].
